@@ -1,6 +1,9 @@
 package main
 
 import (
+	"path/filepath"
+	"os"
+	"encoding/json"
 	"fmt"
 	"go/ast"
 	"go/types"
@@ -157,6 +160,25 @@ func runWriterCensus(c *Ctx, sp writerSpec) []Obligation {
 		a.kinds[w.Kind]++
 	}
 	var obs []Obligation
+	// site budget: statements may MOVE from a permitted function into a private helper of
+	// it, they may not be ADDED there — the sites of the permitted functions and of the
+	// helpers that serve them together do not exceed the number confirmed on the audited tree
+	total, helpers := 0, 0
+	for _, name := range sortedKeys(m) {
+		a := m[name]
+		n := 0
+		for _, k := range a.kinds {
+			n += k
+		}
+		if _, ok := sp.permitted[name]; ok {
+			total += n
+		} else if _, ok := c.privateHelperOf(a.u.Obj, func(n string) bool { _, p := sp.permitted[n]; return p }, 0); ok {
+			total += n
+			helpers += n
+		}
+	}
+	c.noteCensusTotal(rule, total-helpers)
+	overBudget := helpers > 0 && total > censusBudget(rule)
 	for _, name := range sortedKeys(m) {
 		a := m[name]
 		var ks []string
@@ -167,8 +189,11 @@ func runWriterCensus(c *Ctx, sp writerSpec) []Obligation {
 		construct := "writes " + sp.field
 		if role, ok := sp.permitted[name]; ok {
 			obs = append(obs, mkOb(c, rule, a.u, construct, a.first, Proved, "permitted writer ("+strings.Join(ks, ",")+"): "+role, false))
-		} else if via, ok := c.privateHelperOf(a.u.Obj, func(n string) bool { _, p := sp.permitted[n]; return p }, 0); ok {
+		} else if via, ok := c.privateHelperOf(a.u.Obj, func(n string) bool { _, p := sp.permitted[n]; return p }, 0); ok && !overBudget {
 			obs = append(obs, mkOb(c, rule, a.u, construct, a.first, Proved, "private helper called only by permitted writer(s): "+via, false))
+		} else if ok {
+			obs = append(obs, mkOb(c, rule, a.u, construct, a.first, Violated,
+				fmt.Sprintf("a private helper of %s writes %s, and the confirmed writers together now have %d sites where %d were confirmed: a store was added, not moved", via, sp.field, total, censusBudget(rule)), false))
 		} else {
 			obs = append(obs, mkOb(c, rule, a.u, construct, a.first, Violated,
 				"function is not among the confirmed writers of "+sp.field+" ("+strings.Join(ks, ",")+"); permitted: "+strings.Join(sortedKeys(sp.permitted), ", "), false))
@@ -217,13 +242,28 @@ func runCallerCensus(c *Ctx, sp callerSpec) []Obligation {
 		a.n++
 	}
 	var obs []Obligation
+	total, helpers := 0, 0
+	for _, name := range sortedKeys(m) {
+		a := m[name]
+		if _, ok := sp.permitted[name]; ok {
+			total += a.n
+		} else if _, ok := c.privateHelperOf(a.u.Obj, func(n string) bool { _, p := sp.permitted[n]; return p }, 0); ok {
+			total += a.n
+			helpers += a.n
+		}
+	}
+	c.noteCensusTotal(sp.rule, total-helpers)
+	overBudget := helpers > 0 && total > censusBudget(sp.rule)
 	for _, name := range sortedKeys(m) {
 		a := m[name]
 		construct := "uses " + sp.target
 		if role, ok := sp.permitted[name]; ok {
 			obs = append(obs, mkOb(c, sp.rule, a.u, construct, a.f, Proved, fmt.Sprintf("permitted user (%d sites): %s", a.n, role), false))
-		} else if via, ok := c.privateHelperOf(a.u.Obj, func(n string) bool { _, p := sp.permitted[n]; return p }, 0); ok {
+		} else if via, ok := c.privateHelperOf(a.u.Obj, func(n string) bool { _, p := sp.permitted[n]; return p }, 0); ok && !overBudget {
 			obs = append(obs, mkOb(c, sp.rule, a.u, construct, a.f, Proved, "private helper called only by permitted user(s): "+via, false))
+		} else if ok {
+			obs = append(obs, mkOb(c, sp.rule, a.u, construct, a.f, Violated,
+				fmt.Sprintf("a private helper of %s uses %s, and the confirmed users together now have %d sites where %d were confirmed: a use was added, not moved", via, sp.target, total, censusBudget(sp.rule)), false))
 		} else {
 			obs = append(obs, mkOb(c, sp.rule, a.u, construct, a.f, Violated,
 				fmt.Sprintf("function is not among the confirmed users of %s (%d sites); permitted: %s", sp.target, a.n, strings.Join(sortedKeys(sp.permitted), ", ")), false))
@@ -340,6 +380,30 @@ func (c *Ctx) privateHelperOf(f *types.Func, allowed func(name string) bool, dep
 	}
 	sort.Strings(via)
 	return strings.Join(via, ", "), true
+}
+
+// census site budgets (tables/census_budget.json): for every census rule the
+// number of sites its permitted functions had on the audited tree.  Written by
+// `elpscheck -census-budget`, never at check time.
+var censusBudgetTable map[string]int
+
+func censusBudget(rule string) int {
+	if censusBudgetTable == nil {
+		censusBudgetTable = map[string]int{}
+		if b, err := os.ReadFile(filepath.Join(verifDir(), "tables", "census_budget.json")); err == nil {
+			_ = json.Unmarshal(b, &censusBudgetTable)
+		}
+	}
+	return censusBudgetTable[rule]
+}
+
+func (c *Ctx) noteCensusTotal(rule string, n int) {
+	m, _ := c.memo["censusTotals"].(map[string]int)
+	if m == nil {
+		m = map[string]int{}
+		c.memo["censusTotals"] = m
+	}
+	m[rule] = n
 }
 
 // servesPermitted: the function named fname is a private helper (see
